@@ -1250,7 +1250,13 @@ func (w *Wallet) selectProofsForAmount(
 		if inactiveKeysetProofs.Amount() < amount {
 			selectedProofs = inactiveKeysetProofs
 		} else {
-			selectedProofs, _ = selectProofsToSend(inactiveKeysetProofs, amount, mint, includeFees)
+			var err error
+			selectedProofs, err = selectProofsToSend(inactiveKeysetProofs, amount, mint, includeFees)
+			if err != nil {
+				// proofs from inactive keysets cover the amount but not their own fees:
+				// take all of them and cover the rest from the active keyset
+				selectedProofs = inactiveKeysetProofs
+			}
 		}
 		if includeFees {
 			fees = uint64(feesForProofs(selectedProofs, mint))
